@@ -81,6 +81,7 @@ class Profile:
     same_name_other_ns: bool = True
     same_leaf_ns: bool = True
     same_typedef_name_other_ns: bool = False
+    typedef_weight: int = 1
     defaults: bool = True
     typedef_needs_target: bool = False
     template_modes: Tuple[str, ...] = ('all', 'all', 'all', 'none', 'mixed')
@@ -134,6 +135,7 @@ class Ctx:
         self.ns_paths = []      # namespace paths completed so far
         self.typedef_names = []  # (path, new name, target has enums)
         self.fn_groups = {}     # (path, name) -> expansions of the overloads so far
+        self.enum_class_lower = set()  # lower-cased names of classes with nested enums
 
     def names(self, path):
         return self.used.setdefault(path, set())
@@ -144,8 +146,10 @@ class Ctx:
 
 def _ident(pool: Sequence[str], regex: str, used=()):
     avail = [p for p in pool if p not in used and p not in M.RESERVED]
+    # (the oracles' canonical type spelling joins `const` to the name: no identifier starts so)
     rnd = st.from_regex(regex, fullmatch=True).filter(
-        lambda s: s not in used and s not in M.RESERVED and not s.startswith('__'))
+        lambda s: s not in used and s not in M.RESERVED and not s.startswith('__') and
+        not s.startswith('const'))
     if avail:
         return st.one_of(st.sampled_from(avail), st.sampled_from(avail), rnd)
     return rnd
@@ -163,7 +167,7 @@ def class_name(used=()):
 
 
 # identifiers that merely start with a word of the dialect are ordinary identifiers
-KW_PREFIXED = ['operatorNorm', 'constant', 'classes', 'enumerate', 'virtual_', 'staticVar',
+KW_PREFIXED = ['operatorNorm', 'classes', 'enumerate', 'virtual_', 'staticVar',
                'templated', 'typedefs', 'namespaces', 'unsigned_', 'pairs', 'voidness',
                'include_', 'operator_count', 'structure', 'This_', 'std_']
 
@@ -402,6 +406,12 @@ def templates(draw, ctx: Ctx, used=(), force_lists=None, max_params=None):
         if prof.tparam_pool:
             nm = draw(st.sampled_from([x for x in prof.tparam_pool
                                        if x not in used and x not in names]))
+        elif names and draw(st.integers(0, 3)) == 0:
+            # parameter names contained in one another (T and VT, POSE and POSE2) are ordinary
+            base_ = draw(st.sampled_from(names))
+            nm = draw(st.sampled_from([x + base_ for x in 'VPX'] + [base_ + x for x in '2_X'])
+                      .filter(lambda x: x not in used and x not in names and
+                              x not in M.RESERVED))
         else:
             nm = draw(tparam_name(set(used) | set(names)))
         names.append(nm)
@@ -543,7 +553,7 @@ def classes(draw, ctx: Ctx, path: Tuple[str, ...]):
     used.add(name)
     ctx.lower_classes.add(name.lower())
     template = None
-    if prof.templates and draw(st.integers(0, 0 if reused else prof.class_template_odds)) == 0:
+    if prof.templates and draw(st.integers(0, 1 if reused else prof.class_template_odds)) == 0:
         template = draw(templates(ctx))
     ctp = tuple(template.names()) if template else ()
     class_ok = {p.name for p in template.params if not any(i.targs for i in p.insts)} \
@@ -575,7 +585,10 @@ def classes(draw, ctx: Ctx, path: Tuple[str, ...]):
     kinds = ['ctor', 'method', 'method', 'method', 'static', 'prop']
     if prof.operators:
         kinds.append('op')
-    if prof.enums and not (reused and prof.unique_lower_class_names):
+    # (the pybind generator names a class's enum scope variable after the lower-cased class
+    # name: at most one class of that name carries enums)
+    if prof.enums and not (prof.unique_lower_class_names and
+                           name.lower() in ctx.enum_class_lower):
         kinds.append('enum')
     kinds.append('dunder')
     if prof.name != 'dialect' and draw(st.integers(0, 4)) == 2:
@@ -625,6 +638,8 @@ def classes(draw, ctx: Ctx, path: Tuple[str, ...]):
             pn = draw(lower_name(ARG_POOL, prop_names | {name}))
             prop_names.add(pn)
             t = draw(types(ctx, prof.type_depth, ctp))
+            if not t.const and t.name != 'void' and draw(st.integers(0, 2)) == 0:
+                t = replace(t, const=True)  # read-only properties, with every pointer marker
             dflt = draw(st.sampled_from(DEFAULTS)) if prof.defaults and \
                 draw(st.integers(0, 4)) == 0 else None
             members.append(M.Prop(t, pn, dflt))
@@ -675,6 +690,8 @@ def classes(draw, ctx: Ctx, path: Tuple[str, ...]):
     ctx.decls.append(Decl(path, name, 'class', len(ctp), virtual, has_lists, scoped,
                           tuple(p.insts for p in template.params) if has_lists else (),
                           any(isinstance(x, M.Enum) for x in members)))
+    if any(isinstance(x, M.Enum) for x in members):
+        ctx.enum_class_lower.add(name.lower())
     return cls
 
 
@@ -761,7 +778,7 @@ def typedefs(draw, ctx: Ctx, path):
     elsewhere = sorted({n_ for (p_, n_, e_) in ctx.typedef_names
                         if p_ != path and not e_ and n_ not in used})
     if prof.same_typedef_name_other_ns and elsewhere and not has_enums and \
-            draw(st.integers(0, 2)) == 0:
+            draw(st.booleans()):
         new = draw(st.sampled_from(elsewhere))  # geometry::Default, sensors::Default
     else:
         new = draw(class_name(used).filter(
@@ -811,6 +828,9 @@ def variables(draw, ctx: Ctx, path):
     used.add(name)
     ctx.var_names.setdefault(path, set()).add(name)
     t = draw(types(ctx, 2, ()))
+    if draw(st.integers(0, 2)) == 0:  # most constants are of a fundamental type
+        t = M.Type((), draw(st.sampled_from(['bool', 'bool', 'double', 'int', 'size_t'])), (),
+                   draw(st.booleans()), '')
     dflt = draw(st.sampled_from(DEFAULTS)) if ctx.prof.defaults and draw(st.booleans()) else None
     if ctx.prof.compilable and dflt is not None:
         dflt = typed_default(draw, ctx, t)
@@ -833,7 +853,7 @@ def contents(draw, ctx: Ctx, path: Tuple[str, ...], depth_left: int, max_items=N
     if prof.fwd:
         kinds.append('fwd')
     if prof.typedefs and (path or prof.global_typedefs):
-        kinds.append('typedef')
+        kinds += ['typedef'] * prof.typedef_weight
     if depth_left > 0:
         kinds += ['ns', 'ns']
     out = []
